@@ -153,3 +153,24 @@ Theorem meta_reader_reset_is_new : forall st data bf fills reads,
 Proof. exact meta_reader_reset_as_new. Qed.
 Print Assumptions meta_reader_reset_is_new.
 End MetaReaderImplF.
+
+(* bzip2.Reader LIFECYCLE at implementation level (Bzip2/ImplLife.v: Close, the latch, Reset; histories of
+   Read/Close/Reset over scripted sources compared PER CALL with the real Reader: WBZLIFE) *)
+From V Require Import Base.Prelude Prefix.ReaderImpl Prefix.DecTable.
+From V Require Bzip2.Impl Bzip2.ImplLife Bzip2.ImplLifeLatch Bzip2.ImplLifeSim Bzip2.ImplLifeInv Bzip2.ImplLifeThms.
+Module BzLife.
+Import Bzip2.Impl Bzip2.ImplLife Bzip2.ImplLifeLatch Bzip2.ImplLifeSim Bzip2.ImplLifeInv Bzip2.ImplLifeThms.
+(* ---- C14 *)
+Theorem bzip2_reader_reset_as_new : forall st data bf fills reads ops,
+  length (z_trees st) = 6%nat ->
+  fst (bz_ops (bz_reset st data bf fills reads) ops) = fst (bz_ops (bz_new data bf fills reads) ops) /\
+  Bzip2.ImplLifeSim.W0 (snd (bz_ops (bz_reset st data bf fills reads) ops))
+                       (snd (bz_ops (bz_new data bf fills reads) ops)).
+Proof. exact bz_reset_as_new. Qed.
+Print Assumptions bzip2_reader_reset_as_new.
+
+Theorem bzip2_reader_recycled_storage_unobservable : forall s1 s2 ops,
+  Bzip2.ImplLifeSim.W0 s1 s2 -> fst (bz_ops s1 ops) = fst (bz_ops s2 ops).
+Proof. exact bz_recycled_storage_unobservable. Qed.
+Print Assumptions bzip2_reader_recycled_storage_unobservable.
+End BzLife.
